@@ -111,7 +111,8 @@ def pipeline_case(case):
     from cdd.compound.openapi.gen_routes import gen_routes, upsert_routes
     from cdd.shared.source_transformer import to_code
 
-    app, entries = case
+    app, entries = case[0], case[1]
+    shared = len(case) > 2 and case[2] == "shared-routes-module"
     d = tempfile.mkdtemp(prefix="cddvc_c16_")
     try:
         with contextlib.redirect_stderr(io.StringIO()), contextlib.redirect_stdout(io.StringIO()):
@@ -126,8 +127,20 @@ def pipeline_case(case):
             for name, cols, pk, crud, route in entries:
                 rp = os.path.join(d, "%s_routes.py" % name.lower())
                 routes, primary_key = gen_routes(app=app, model_path=mp, model_name=name, crud=crud, route=route)
-                upsert_routes(app=app, routes=routes, routes_path=rp, route=route, primary_key=primary_key)
-                rps.append(rp)
+                if shared:
+                    # all models' routes live in ONE routes module (written the way upsert_routes writes a fresh file);
+                    # the generated functions of different models have the same names
+                    from cdd.tests.mocks.routes import route_prelude  # the very text upsert_routes writes
+
+                    rp = os.path.join(d, "routes.py")
+                    head = "" if os.path.isfile(rp) else route_prelude.replace("rest_api =", "{app} =".format(app=app))
+                    with open(rp, "a") as fh:
+                        fh.write("\n\n".join(([head] if head else [""]) + [to_code(r_) for r_ in routes]))
+                        fh.write("\n")
+                    rps = [rp]
+                else:
+                    upsert_routes(app=app, routes=routes, routes_path=rp, route=route, primary_key=primary_key)
+                    rps.append(rp)
                 if "C" in crud:
                     exp.setdefault(route, set()).add("post")
                 item = "%s/{%s}" % (route, primary_key)
@@ -184,6 +197,9 @@ def bounded(tier):
                 name, cols, pk = MODELS[(mi + j) % len(MODELS)]
                 entries.append((name, cols, pk, CRUDS[(ci + j) % len(CRUDS)], "%s/%s" % (("/api", "/api/v1", "")[(k + j) % 3], name.lower())))
             pcases.append((("rest_api", "app", "my_bottle")[k % 3], entries))
+            if len(entries) > 1:
+                # the same models with all their routes in one module, overlapping CRUD letters
+                pcases.append((("rest_api", "app", "my_bottle")[k % 3], [e[:3] + (CRUDS[(ci + (j_ % 2)) % len(CRUDS)],) + e[4:] for j_, e in enumerate(entries)], "shared-routes-module"))
             k += 1
     pres = common.pmap(pipeline_case, pcases, chunksize=1)
     fails = {}
